@@ -29,6 +29,9 @@ func probeDesign() *m.Design {
 		Payload: rt.Obj(rt.Fld("choice", &m.Attr{Type: &m.Type{Kind: m.Union, Fields: []*m.Field{
 			rt.Fld("num", &m.Attr{Type: &m.Type{Kind: m.Int}, V: &m.Validation{Max: fp(10)}}, false), rt.Fld("text", m.Prim(m.String), false)}}}, true)),
 		HTTP: &m.HTTPEndpoint{Routes: []m.Route{{Verb: "POST", Path: "/union"}}}})
+	s.Methods = append(s.Methods, &m.Method{Name: "hdrbound",
+		Payload: rt.Obj(&m.Field{Name: "label", Attr: &m.Attr{Type: &m.Type{Kind: m.Int}, V: &m.Validation{Max: fp(40)}, VAtMapping: true}}),
+		HTTP:    &m.HTTPEndpoint{Routes: []m.Route{{Verb: "PUT", Path: "/hdrbound"}}, Headers: []m.Mapping{{Attr: "label", Wire: "X-L"}}}})
 	d.Services = []*m.Service{s}
 	return d
 }
@@ -55,6 +58,10 @@ func TestProbes(t *testing.T) {
 			st = o.Response.Status
 		}
 		return o.StubCalls == 0 && st == 400, "payload {q:\"x\"} without the optional array tags (MinLength 1): status " + itoa(st) + " " + body(o)
+	})
+	rt.Probe("C04-validation-written-in-header-mapping-not-enforced", func() (bool, string) {
+		o := call("hdrbound", value.Object(value.Field{N: "label", V: value.Int(41)}))
+		return o.StubCalls == 1, "Header(\"label:X-L\", func(){ Maximum(40) }) called with 41: the service method ran " + itoa(o.StubCalls) + " time(s)"
 	})
 	rt.Probe("C04-required-cookie-discards-earlier-errors", func() (bool, string) {
 		o, err := h.Do(&harness.Case{Op: "call", Svc: "probe", Method: "cookie", HasPayload: true,
